@@ -64,7 +64,7 @@ UNITS = {
         'functions': ['penman._lexer:TokenIterator.__bool__', 'penman._lexer:TokenIterator.error',
                       'penman._lexer:TokenIterator.peek', 'penman._lexer:TokenIterator.next',
                       'penman._lexer:TokenIterator.expect', 'penman._lexer:TokenIterator.accept'],
-        'regex': ['lexer'],
+        'regex': ['lexer', 'linebreak'],
         'lemmas': [],
         'level': 'other',
         'explanation': 'Proved against the abstract view (remaining tokens, last token): every token request '
@@ -107,7 +107,7 @@ UNITS = {
         'functions': ['penman._format:_format_edge', 'penman._format:format', 'penman.tree:_nodes',
                       'penman.tree:Tree.nodes', 'penman._lexer:TokenIterator.expect',
                       'penman._lexer:TokenIterator.peek', 'penman._lexer:TokenIterator.next'],
-        'regex': ['lexer'],
+        'regex': ['lexer', 'linebreak'],
         'lemmas': [],
         'level': 'other',
         'explanation': 'Proved: lexer facts (delimiters never inside SYMBOL/ROLE, STRING atomic and prefix-free, class '
@@ -163,7 +163,7 @@ UNITS = {
     },
     'C08': {
         'functions': [],
-        'regex': ['lexer'],
+        'regex': ['lexer', 'linebreak'],
         'lemmas': [],
         'level': 'other',
         'explanation': 'Proved as single-variable regular-expression obligations over the live patterns (both '
@@ -207,10 +207,12 @@ UNITS = {
                        'evaluate(quote(s)) == s (the json round trip) and type() are decided by the bounded stand-in.',
     },
     'C14': {
-        'functions': ['penman.layout:get_pushed_variable'],
+        'functions': ['penman.layout:get_pushed_variable', 'penman.layout:interpret'],
         'lemmas': [],
         'level': 'other',
-        'explanation': 'Proved: get_pushed_variable answers the variable of the first Push marker of a triple and None '
+        'explanation': 'Proved: the markers the diagnostics read are the documented ones -- interpret() / _interpret_node '
+                       'put Push on the branch that opens a node and POP on the last triple of the nested node, with '
+                       'the null-concept instance triple first; get_pushed_variable answers the variable of the first Push marker of a triple and None '
                        'for a triple without one, and never raises (also for triples without a marker entry).  Node '
                        'contexts and appears_inverted against the text are decided by the bounded stand-in.',
     },
